@@ -54,3 +54,33 @@ Example C07_nonvacuous := C07_observable_ex.
 Print Assumptions C07_observable.
 Print Assumptions C07_invariant.
 Print Assumptions C07_no_panic.
+
+(* ---- network level (package G, Net_proofs21): every block batch in flight between two nodes of a reachable net was put
+   there by a poll of the sender, holds no CID twice, and each of its CIDs was in the reference view of the receiver's
+   wants at the sender just before that poll (WANT delivered and not since cancelled / replaced / served, in delivery
+   order at the sender); the server half of every node is exactly Server.v run on the ops the net delivered to it. *)
+From BS Require Import Net Net_proofs Net_proofs2 Net_proofs5 Net_proofs7 Net_proofs9 Net_proofs10 Net_proofs13 Net_props Net_proofs14 Net_proofs15 Net_proofs16 Net_proofs17 Net_proofs18 Net_proofs19 Net_proofs20 Net_proofs21 Server Server_inv Net_props2.
+From Coq Require Import ZArith Lia.
+Open Scope N_scope.
+
+Theorem C07_net_only_wanted :
+  forall (Sz : N) (Hh : hash_fn),
+  32 <= Sz ->
+  forall (n : nat) (ops : list nop),
+  Forall (nop_good Sz Hh) ops ->
+  let s := fst (nrun Sz Hh (net_init n) ops) in
+  (forall (j : N) (nj : node),
+   get_node s j = Some nj -> n_server nj = snd (srun_l Sz (sops_run Sz Hh (net_init n) ops j))) /\
+  (forall m : bmsg,
+   In m (wire_b s) ->
+   exists ops1 ops2 : list nop,
+     ops = ops1 ++ NPoll (bm_src m) :: ops2 /\
+     NoDup (map fst (bm_blocks m)) /\
+     (forall c : cid,
+      In c (map fst (bm_blocks m)) ->
+      exists view : list cid,
+        sview Sz (bm_dst m) (fst (srun_l Sz (sops_run Sz Hh (net_init n) ops1 (bm_src m)))) = Some view /\
+        In c view)).
+Proof. exact (@Net_props2.C07_net_only_wanted). Qed.
+
+Print Assumptions C07_net_only_wanted.
